@@ -61,13 +61,17 @@ class _Union:
 
 
 def list_item(item):
-    """item = (incs, excs_inline, excs_kw, flags, kind, form, known); form: 'list' | 'split' | 'brace'"""
-    incs, exi, exk, flags, kind, form, known = item
+    """item = (incs, excs_inline, excs_kw, flags, kind, form, known[, route]); form: 'list' | 'listrev' (exclusions first) | 'split' | 'brace';
+    route: 'compile' (the regexes the matchers execute) | 'translate' (the regexes translate() returns)"""
+    incs, exi, exk, flags, kind, form, known = item[:7]
+    route = item[7] if len(item) > 7 else 'compile'
     try:
         api = F if kind == 'fnmatch' else G
         minus = bool(flags & W.MINUSNEGATE)
         neg = '-' if minus else '!'
         texts = [P.render(p) for p in incs] + [neg + P.render(p) for p in exi]
+        if form == 'listrev':
+            texts = texts[len(incs):] + texts[:len(incs)]
         if form == 'split':
             pats, fl = '|'.join(texts), flags | W.SPLIT
         elif form == 'brace':
@@ -78,8 +82,10 @@ def list_item(item):
         if exk:
             kw['exclude'] = [P.render(p) for p in exk]
         # the regexes the matcher itself executes (translate()'s are language-equal by C08)
-        cp, cn = W.compile_pattern(pats, api._flag_transform(fl), exclude=kw.get('exclude'))
-        pos, ng = cp, cn
+        if route == 'translate':
+            pos, ng = api.translate(pats, **kw)
+        else:
+            pos, ng = W.compile_pattern(pats, api._flag_transform(fl), exclude=kw.get('exclude'))
         rec = lang._Rec(known)
         path = kind == 'glob'
         m = LC.mode_from_flags(flags, path)
@@ -108,13 +114,14 @@ def list_item(item):
             must, may = R.s_diff(must, ds), R.s_diff(may, ds)
         dom = D.dom_relative(m) if path else D.dom_nonempty(m)
         impl = _Union([R.Impl(x) for x in pos], [R.Impl(x) for x in ng])
-        sig = dict(pattern=str(pats), exclude=str(kw.get('exclude')), flags=fl, fl=LC.flagnames(fl), mode=kind, form=form)
+        sig = dict(pattern=str(pats), exclude=str(kw.get('exclude')), flags=fl, fl=LC.flagnames(fl), mode=kind, form=form, route=route)
 
         def native(w):
             return (F.fnmatch if kind == 'fnmatch' else G.globmatch)(w, pats, **kw)
         call = 'fnmatch.fnmatch' if kind == 'fnmatch' else 'glob.globmatch'
         extra = f", exclude={kw['exclude']!r}" if exk else ''
-        st = lang.decide(rec, 'C07.lang.list==boolean_combination_of_single_patterns', impl, R.Spec(must, m.maxc), R.Spec(may, m.maxc), R.Spec(dom, m.maxc), sig,
+        ob = 'C07.lang.list==boolean_combination_of_single_patterns' + ('(translate)' if route == 'translate' else '')
+        st = lang.decide(rec, ob, impl, R.Spec(must, m.maxc), R.Spec(may, m.maxc), R.Spec(dom, m.maxc), sig,
                          native=native, expect_fmt=LC.replay_fn(call, pats, fl, extra))
         return st, rec.ops
     except R.Unsupported as e:
@@ -169,10 +176,19 @@ def run(chk, tier, seed):
                     items.append((incs, excs, (), f, kind, 'split', chk.known))
                 if rnd.random() < 0.3 and not any(',' in P.render(p) for p in incs + excs):
                     items.append((incs, excs, (), f, kind, 'brace', chk.known))
+                if excs and rnd.random() < 0.5:
+                    items.append((incs, excs, (), f, kind, rnd.choice(('list', 'listrev', 'split')), chk.known, 'translate'))
                 if len(incs) + len(excs) > 1 and rnd.random() < 0.4:
                     pi = list(incs) + list(incs[:1])
                     rnd.shuffle(pi)
                     items.append((tuple(pi), tuple(reversed(excs)), (), f, kind, 'list', chk.known))
+        # the same text as an inclusion and as an inline exclusion, in both orders, through both routes
+        for p in pool[:5]:
+            for fl in (W.NEGATE, W.NEGATE | W.NEGATEALL, W.NEGATE | W.MINUSNEGATE):
+                for form in ('list', 'listrev', 'split'):
+                    for route in ('compile', 'translate'):
+                        items.append(((p,), (p,), (), base | fl, kind, form, chk.known, route))
+                        items.append(((p, pool[0]), (p,), (), base | fl, kind, form, chk.known, route))
     res = pmap(LC._with_budget(list_item) if False else list_item, items)
     counts = {}
     for (st, ops), it in zip(res, items):
